@@ -344,6 +344,13 @@ func c20FailureReset(p *ana.Prog, r *ana.Result, ex, fd *ssa.Function) {
 }
 
 func c20ReadData(p *ana.Prog, r *ana.Result) {
+	// success only at End of Message (rule shared with C14): a nil return from any other arm
+	// accepts a stream whose remaining records - server, port, error, unknown critical - are never read
+	{
+		n0 := len(r.Obls)
+		c14NTSKE(p, r)
+		shareObls(p, r, n0, "C14.tags", "C20.readdata", "net/ntske.ReadData", "nil-return-")
+	}
 	fn := mustFunc(p, r, "net/ntske", "ReadData")
 	if fn == nil {
 		return
